@@ -184,7 +184,9 @@ CHECKS = {
              "output ignored (own order, there-and-back, thorough: reversed); every single-step case of every check-*.test file (7.7 k programs, quick 1/8) "
              "must print the same without a cache, while writing it, replayed from it and re-analysed against dependencies deserialised from it; and "
              "every CacheMeta / CacheMetaEx object the build reads must equal, field by field, the object last written for that entry (the model's "
-             "Load = last committed WMeta / WEx), incl. a field-rich program in all four configurations.",
+             "Load = last committed WMeta / WEx), incl. a field-rich program in all four configurations; every module tree written is pushed through BOTH cache "
+             "formats at write time (serialize / deserialize, write / read, fixed up) and must serialize again to the same in both, and trees loaded from the "
+             "cache must re-serialize to what was written (the model's 'trees from data records').",
         design_ref="DESIGN.md 5.C02, 10",
         note="bounded catalogue of 3-5 modules and 4-6 content variants each; logical clock (A-clock); in-process build with test fixtures; "
              "oracle is a cold run of the same code; trusted: TLC, the harness' store proxy",
